@@ -577,7 +577,7 @@ def _num_diff(goals, model):
         y = sc.evalf(b, model, memo)
         if x != x or y != y:
             continue
-        if abs(x - y) > 1e-6 * max(1.0, abs(x), abs(y)):
+        if abs(x - y) > (getattr(sc.CTX, "tol", None) or 1e-6) * max(1.0, abs(x), abs(y)):
             bad.append((label, i, x, y))
     return bad
 
@@ -588,6 +588,7 @@ def decide_case(case, opts):
     sc.CTX.reset()
     sc.CTX.xr_axioms = bool(getattr(case, "xr_axioms", False))      # C09: ground axioms for exp/log atoms in every query
     sc.CTX.xr_marks = getattr(case, "xr_marks", None)
+    sc.CTX.tol = getattr(case, "tol", None)       # numeric screen / replay tolerance (default 1e-6 / 1e-5; tighter for float64-exact cases)
     rng = random.Random((opts.seed * 1000003) ^ (hash_sig(case.sig) & 0xFFFFFFF))
     stats = {"runs": 0, "coverage_queries": 0, "tie_runs": 0}
     q0, s0 = lw.STATS["queries"], lw.STATS["solver_s"]
@@ -1096,7 +1097,7 @@ def replay_generic(case, cand, uses_rng=False):
             return True, "%s: shapes %s vs %s" % (l, osh, esh)
         scl = _scale(e)
         for i, (a, b) in enumerate(zip(o, e)):
-            if not abs(a - b) <= 1e-5 * scl and not (a != a and b != b):
+            if not abs(a - b) <= (getattr(case, "tol", None) or 1e-5) * scl and not (a != a and b != b):
                 msgs.append("%s[%d]: code=%.8g reference=%.8g" % (l, i, a, b))
     for l, lhs, rel, rhs in out.claims:
         a, _ = flat_floats(lhs)
